@@ -13,9 +13,11 @@ import json
 
 STREAMS = ['mkrule', 'match-pairs', 'route-histories', 'client-histories', 'rule-text', 'bus-parse',
            'proxy-gate', 'oracle-vs-spec']
-THEOREMS = ['tables_current', 'mtypes_table_is_spec', 'match_eq_spec', 'route_exact', 'route_independent_of_raising',
-            'invoked_exact_each_once', 'removed_never_invoked', 'ids_never_reused', 'rule_text_roundtrip',
-            'bus_rule_is_client_rule', 'proxy_gate', 'proxy_delivery', 'client_refines_router', 'client_signal_exact']
+THEOREMS = ['tables_current', 'mtypes_table_is_spec', 'match_eq_spec', 'namespace_is_component_prefix', 'route_exact',
+            'route_independent_of_raising', 'invoked_exact_each_once', 'removed_never_invoked', 'ids_never_reused',
+            'rule_text_roundtrip', 'client_text_means_constraints', 'bus_reads_what_the_text_means',
+            'bus_rule_is_client_rule', 'proxy_gate', 'proxy_delivery', 'proxy_select', 'proxy_cancel',
+            'client_refines_router', 'client_signal_exact']
 TRUSTED_BASE = [
     'Python str ==, startswith, endswith, split, slices, "%d" %, int() on ASCII digits, dict insertion order, '
     'getattr/hasattr, truthiness, try/except BaseException (mirrored by hand in Route/*.lean, validated by the streams)',
@@ -26,10 +28,14 @@ ASSUMPTIONS = [
     'callbacks do not add or remove rules synchronously while a message is being routed (the public client API '
     'cannot: addMatch/delMatch act after the daemon replied); the internal-API variant is probed and noted',
     'rule values are str, argument indices are non-negative int; constraint values that are the empty string are '
-    'dropped by the router (falsy) - the oracle does not judge rules containing them',
+    'dropped by the router (falsy) - neither matching nor the rule text is judged for rules containing them',
     'sender and arg0namespace are not evaluated locally (not among the constraints the property lists)',
     'whether argN may match an OBJECT_PATH / SIGNATURE / variant-wrapped string argument (the DBus spec says '
     'STRING only; the code sees one Python str type) is left unjudged by the oracle',
+    'the oracle judges a registration only while it is settled (acknowledged and no removal requested, or removal '
+    'acknowledged); it identifies registrations by the order of their addMatch calls, never by id value; ids may be reissued',
+    'rule texts are judged with the specification grammar for values without an apostrophe (the code does not escape; reported)',
+    'a proxy subscription whose signal name is declared by several interfaces and no interface= was given is not judged',
 ]
 RULE = ('rule x message pairs are derived from a generated message: every subset of constraint keys, values copied '
         'from the message (match) or replaced by a near-miss (sibling sharing a textual prefix, parent, child, '
@@ -1076,7 +1082,8 @@ def canon_text(text):
     """A rule text up to the order of its items (raw when it is not a rule)."""
     p = spec_parse_rule(text)
     if p is None:
-        return 'raw:' + hx(text)
+        # not a rule by the specification (an unescaped apostrophe, ...): items as the client separates them
+        return 'raw:' + ';'.join(hx(x) for x in sorted(text.split("',")))
     return 'rule:' + ';'.join('%s=%s' % (hx(k), hx(v)) for k, v in sorted(p))
 
 
